@@ -283,6 +283,28 @@ PROGRAMS = [
 ]
 
 
+class _Timeout(BaseException):
+    pass
+
+
+def _with_alarm(fn, seconds):
+    """run fn(); a compiled function that does not terminate (the CPython reference did) must end the case, not hang the check"""
+    import signal
+
+    def on_alarm(signum, frame):
+        raise _Timeout()
+    try:
+        prev = signal.signal(signal.SIGALRM, on_alarm)
+    except ValueError:          # not in the main thread: run unguarded
+        return fn()
+    signal.alarm(seconds)
+    try:
+        return fn()
+    finally:
+        signal.alarm(0)
+        signal.signal(signal.SIGALRM, prev)
+
+
 def _run_program(name, src, args_list):
     from ppci.lang.python import python_to_ir, ir_to_python
     ns_ref = {}
@@ -298,7 +320,9 @@ def _run_program(name, src, args_list):
         n += 1
         want = ns_ref["f"](*args)
         try:
-            got = ns["f"](*args)
+            got = _with_alarm(lambda: ns["f"](*args), 20)
+        except _Timeout:
+            got = "no result after 20 s (CPython returned at once)"
         except Exception as e:
             got = "raised %r" % (e,)
         if got != want:
